@@ -549,7 +549,7 @@ Theorem gen_phragmen_res_eq oloads oinit otb enum fuel W :
   gen_sequential_phragmen_res I P oloads oinit otb enum fuel = Ok W.
 Proof.
   intros Hnd Hlen Hm Hf. unfold gen_sequential_phragmen_res. cbv beta iota zeta.
-  repeat (erewrite py_for_append_map; cbv beta iota; cbn [app]).
+  timeout 30 (repeat (erewrite py_for_append_map; cbv beta iota; cbn [app])).
   change py_name with tb_lexico.
   set (tb := match otb with Some t => t | None => tb_lexico end) in *.
   change (match oinit with Some a => a | None => [] end) with (alloc_or_empty oinit).
@@ -573,8 +573,8 @@ Proof.
                 phr_res f I P tb projs loads alloc c = Some W1 ->
                 exists pr vo, F (S f) projs voters alloc cg [] = Ok (pr, vo, name_sort W1, [name_sort W1]))
   end.
-  1,3: phr_sim_proof.
-  all: phr_use.
+  1,3: timeout 120 phr_sim_proof.
+  all: timeout 60 phr_use.
 Qed.
 Lemma add_leaf_dedup : forall (l : list (list proj)) acc seen,
   (forall W, py_alloc_in W acc = memb_nl W seen) ->
@@ -629,7 +629,7 @@ Theorem gen_phragmen_irr_eq oloads oinit otb enum fuel Ws :
   gen_sequential_phragmen_irr I P oloads oinit otb enum fuel = Ok Ws.
 Proof.
   intros Hnd Hlen Hm Hf. unfold gen_sequential_phragmen_irr. cbv beta iota zeta.
-  repeat (erewrite py_for_append_map; cbv beta iota; cbn [app]).
+  timeout 30 (repeat (erewrite py_for_append_map; cbv beta iota; cbn [app])).
   change py_name with tb_lexico.
   set (tb := match otb with Some t => t | None => tb_lexico end) in *.
   change (match oinit with Some a => a | None => [] end) with (alloc_or_empty oinit).
@@ -653,8 +653,8 @@ Proof.
                 phr_irr f I P tb projs loads alloc c = Some W1 ->
                 exists pr vo al, F (S f) projs voters alloc cg allocs = Ok (pr, vo, al, fold_left add_leaf W1 allocs))
   end.
-  1,3: phr_sim_proof_irr.
-  all: phr_use_irr.
+  1,3: timeout 120 phr_sim_proof_irr.
+  all: timeout 60 phr_use_irr.
 Qed.
 
 End PhragmenRes.
